@@ -222,7 +222,9 @@ def _producer(arg):
     try:
         zoo.build_image(b, spec, img, workdir, seed=idx)
     except zoo.ZooError as e:
-        out["harness"] = str(e)[-300:]
+        # the generated tree does not fit this image specification (e.g. an attribute too big for
+        # its inode size): no image, nothing to judge - not a failure of the harness
+        out["skipped"] = str(e)[-300:]
         return out
 
     def fsck(args):
@@ -465,6 +467,11 @@ def main(tier, seed, replay=None, scale=1.0):
         na = max(4, int(bud["a"] * scale))
         tot = {}
         for r in run.pmap(_producer, [(w.dir, i, seed) for i in range(na)], chunksize=1):
+            if r.get("skipped"):
+                rep.note_inconclusive("producer image not built: %s" % r["skipped"])
+                rep.count("a_image_not_built")
+                rep.case(None)
+                continue
             if r.get("harness"):
                 rep.harness_error("producer pipeline failed: %s" % r["harness"])
                 continue
